@@ -61,6 +61,25 @@ def oracle(ctx, seeds=None):
             disc.calc_grad(); disc.calc_bc_grad()
             Ls, Rs = num.interp_face(msh, alldata, disc.grad)
             return [Ls[-1]], [Rs[-1]], [np.array(x, dtype=float).copy() for x in Ls], [np.array(x, dtype=float).copy() for x in Rs]
+        if i % 3 == 1 and n >= 2:
+            # whole-number cell data held in an integer array: the face states are those of the same numbers held as floats
+            ints = rng.integers(-6, 7, n)
+            def run_int(arr):
+                disc.neq = 1
+                disc.pdata = [arr]
+                disc.calc_grad(); disc.calc_bc_grad()
+                Ls, Rs = num.interp_face(msh, [arr], disc.grad)
+                return np.array(Ls[0], dtype=float).copy(), np.array(Rs[0], dtype=float).copy()
+            oki, outi = impl.guarded(lambda: (run_int(ints.astype(np.int64)), run_int(ints.astype(float))))
+            res.case(('integer-data', sch[0], md['kind']))
+            rpi = dict(mesh=md, scheme=sch, integer_data=[int(x) for x in ints])
+            if not oki:
+                res.fail('%s:integer-data-raised' % sch[0], outi, rpi)
+            else:
+                (Li, Ri), (Lf, Rf) = outi
+                if not (np.allclose(Li[1:], Lf[1:], rtol=1e-13, atol=1e-13) and np.allclose(Ri[:-1], Rf[:-1], rtol=1e-13, atol=1e-13)):
+                    res.fail('%s:integer-data' % sch[0], "face states of whole-number cell data held in an integer array differ from those of the same data held as floats (max %r)" %
+                             (float(max(np.max(np.abs(Li[1:] - Lf[1:])), np.max(np.abs(Ri[:-1] - Rf[:-1])))),), rpi)
         ok, out = impl.guarded(run)
         res.case((sch[0], sch[1] if len(sch) > 1 and isinstance(sch[1], str) else '', md['kind'], B == 0.0, min(n, 4)))
         rp = dict(mesh=md, scheme=sch, A=A, B=B)
